@@ -200,5 +200,22 @@ MUTANTS = {
         ("twin: x*h", AN, "        # Apply fading\n        y = h * x", "        # Apply fading\n        y = x * h", "silent"),
         ("twin: sqrt(0.5) factor", AN, "            h = torch.complex(h_real, h_imag) / (2**0.5)\n\n        elif self.fading_type == \"rician\":", "            h = torch.complex(h_real, h_imag) * (0.5**0.5)\n\n        elif self.fading_type == \"rician\":", "silent"),
     ],
+    "C06": [
+        ("qam llr not divided by noise", QAM, "llrs[..., bit_idx] = (dist_1 - dist_0) / (2 * noise_var_tensor)", "llrs[..., bit_idx] = (dist_1 - dist_0) * (2 * noise_var_tensor)", "violation", "LLR-SCALE"),
+        ("qam llr sqrt noise", QAM, "llrs[..., bit_idx] = (dist_1 - dist_0) / (2 * noise_var_tensor)", "llrs[..., bit_idx] = (dist_1 - dist_0) / (2 * torch.sqrt(noise_var_tensor))", "violation", "LLR-SCALE"),
+        ("qam unsquared distance", QAM, "squared_distances = torch.real(diff * torch.conj(diff))", "squared_distances = torch.abs(diff)", "violation", "LLR-SCALE"),
+        ("qam hard argmax", QAM, "closest_indices = torch.argmin(distances, dim=-1)  # (..., N)", "closest_indices = torch.argmax(distances, dim=-1)  # (..., N)", "violation", "HARD-NEAREST"),
+        ("qam device perturbation", QAM, "            closest_indices = torch.argmin(distances, dim=-1)  # (..., N)", "            if self.order == 4 and y.device.type == \"cuda\":\n                distances = distances + torch.randn_like(distances) * 1e-5\n            closest_indices = torch.argmin(distances, dim=-1)  # (..., N)", "violation", "G3"),
+        ("psk hard negative metric", PSK, "            distances = torch.abs(expanded_y - expanded_const)\n            closest_indices = torch.argmin(distances, dim=-1)  # (..., N)", "            distances = -torch.abs(expanded_y - expanded_const)\n            closest_indices = torch.argmin(distances, dim=-1)  # (..., N)", "violation", "HARD-NEAREST"),
+        ("bpsk hard inverted", PSK, "return (y_real < 0).float()", "return (y_real > 0).float()", "violation", "HARD-NEAREST"),
+        ("oqpsk hard inverted", OQPSK, "bits_real = (y_real < 0).float()", "bits_real = (y_real >= 0).float()", "violation", "HARD-NEAREST"),
+        ("pam soft uses constellation of other table", PAM, "bit_0_indices = (self.modulator.bit_patterns[:, bit_idx] == 0).nonzero().squeeze(1)", "bit_0_indices = (self.bit_table[:, bit_idx] == 0).nonzero().squeeze(1)", "violation"),
+        ("dpsk noise doubling dropped to multiply", DPSK, "distances = -torch.abs(y_expanded - points_expanded) ** 2 / noise_var_expanded", "distances = -torch.abs(y_expanded - points_expanded) ** 2 * noise_var_expanded", "violation", "LLR-SCALE"),
+        ("pi4 per-symbol variance ignored", PI4, "                        min_dist_0 = min_dist_0 / current_noise_var\n\n                        # Distance to constellation points where bit is 1\n                        distances_1 = -torch.abs(expanded_y - const_bit_1.unsqueeze(0)) ** 2", "                        min_dist_0 = min_dist_0\n\n                        # Distance to constellation points where bit is 1\n                        distances_1 = -torch.abs(expanded_y - const_bit_1.unsqueeze(0)) ** 2", "violation", "LLR-SCALE"),
+        ("qpsk hard searches subset", PSK, "            expanded_const = self.modulator.constellation.expand(*([1] * len(batch_shape)), symbol_shape, 4)  # (..., N, 4)", "            expanded_const = self.modulator.constellation[self.modulator.bit_patterns[:, 0] == 0].expand(*([1] * len(batch_shape)), symbol_shape, 2)", "violation", "HARD-NEAREST"),
+        ("twin: abs squared in hard", PSK, "            distances = torch.abs(expanded_y - expanded_const)\n            closest_indices = torch.argmin(distances, dim=-1)  # (..., N)", "            distances = torch.abs(expanded_y - expanded_const) ** 2\n            closest_indices = torch.argmin(distances, dim=-1)  # (..., N)", "silent"),
+        ("twin: argmax of negated", QAM, "closest_indices = torch.argmin(distances, dim=-1)  # (..., N)", "closest_indices = torch.argmax(-distances, dim=-1)  # (..., N)", "silent"),
+        ("twin: noise var factor order", QAM, "llrs[..., bit_idx] = (dist_1 - dist_0) / (2 * noise_var_tensor)", "llrs[..., bit_idx] = 0.5 * (dist_1 - dist_0) / noise_var_tensor", "silent"),
+    ],
 }
 
